@@ -341,6 +341,21 @@ func (t *tamper) apply(kind int) string {
 					cfg.Set("injected", gen.Bool(true))
 					return "add.config-key"
 				}
+				// integers beyond 2^53 are where number handling is most fragile: pick one if there is one
+				var big []*gen.Node
+				for _, l := range ls {
+					if l.Kind == gen.KInt && (l.I > 1<<53 || l.I < -(1<<53)) {
+						big = append(big, l)
+					}
+				}
+				if len(big) > 0 && t.draw(2, "mut:bigint-leaf") == 1 {
+					l := big[t.draw(len(big), "mut:bigleaf")]
+					if t.draw(2, "mut:bigint-retype") == 1 {
+						l.Kind, l.S = gen.KStr, fmt.Sprint(l.I)
+						return "corrupt.config-leaf.big-integer-to-its-digits-as-string"
+					}
+					return "corrupt.config-leaf" + mutateLeaf(t, l)
+				}
 				return "corrupt.config-leaf" + mutateLeaf(t, ls[t.draw(len(ls), "mut:leaf")])
 			case 1:
 				k := "injected"
@@ -668,6 +683,40 @@ func (t *tamper) apply(kind int) string {
 		}
 		sig.Get("value").S = v[:len(v)-1-t.draw(3, "mut:trunc")]
 		return "record.signature-truncated"
+	case 25: // a numeric leaf anywhere in plugins or matrix: retyped to the string that spells it, or moved
+		var ls, nums []*gen.Node
+		if plugins != nil {
+			leaves(plugins, &ls)
+		}
+		if m := st.Get("matrix"); m != nil && m.Kind == gen.KMap {
+			for i, k := range m.Keys {
+				if k != "setup" && k != "adjustments" {
+					leaves(m.Vals[i], &ls)
+				}
+			}
+		}
+		for _, l := range ls {
+			if l.Kind == gen.KInt || l.Kind == gen.KFloat {
+				nums = append(nums, l)
+			}
+		}
+		if len(nums) == 0 {
+			return ""
+		}
+		l := nums[t.draw(len(nums), "mut:numleaf")]
+		big := l.Kind == gen.KInt && (l.I > 1<<53 || l.I < -(1<<53))
+		if t.draw(2, "mut:num-retype") == 1 {
+			if l.Kind == gen.KInt {
+				l.Kind, l.S = gen.KStr, fmt.Sprint(l.I)
+			} else {
+				l.Kind, l.S = gen.KStr, strings.TrimSuffix(string(gen.Float(l.F).ToJSON(nil)), ".0")
+			}
+			if big {
+				return "corrupt.number.big-integer-to-its-digits-as-string"
+			}
+			return "corrupt.number.to-its-spelling-as-string"
+		}
+		return "corrupt.number" + mutateLeaf(t, l)
 	}
 	return ""
 }
@@ -712,7 +761,7 @@ func (p partialFielder) ValuesForFields(fields []string) (map[string]any, error)
 	return p.SignedFields()
 }
 
-const nTamperKinds = 25
+const nTamperKinds = 26
 
 func runC01(c *engine.Ctx) {
 	p := c.Plan
